@@ -71,9 +71,12 @@ def main():
     extra = {}
     if hasattr(mod, "finish"):
         extra = mod.finish(ctx, merged) or {}
-    if extra.get("harness_error"):
+    if extra.get("harness_error") and not merged["violations"]:
+        # vacuity guards only make sense for complete explorations; units stop early once they have
+        # violations to report, which legitimately leaves decision classes thin
         print("HARNESS-ERROR:", extra["harness_error"], file=sys.stderr)
         return 2
+    extra.pop("harness_error", None)
 
     # ---- triage violations: known findings vs. new ones
     known = core.load_known()
